@@ -75,6 +75,10 @@ MenuTransA == {<<>>, <<Send("at", 1)>>, <<Send("at", 1), Sched(1)>>, <<SendIn("a
 MenuTransC == {<<>>, <<ShutdownC>>, <<RestartC(2)>>}
 MenuTrans == [m \in {"a", "b", "c"} |-> IF m = "a" THEN MenuTransA ELSE IF m = "c" THEN MenuTransC ELSE {<<>>}]
 StartTrans == [m \in {"a", "b", "c"} |-> IF m = "a" THEN {<<Send("at", 1), Sched(1)>>} ELSE IF m = "c" THEN {<<>>, <<Sched(1)>>, <<Sched(2)>>} ELSE {<<>>}]
+(* bursts over the transit path: the channel of the second hop (T2) / in front of the transit gate (T3) ends with a backlog *)
+MenuTBurstA == {<<>>, <<Send("at", 2), Send("at", 1), Sched(1)>>, <<Send("at", 1), Send("at", 1), Send("at", 1)>>, <<SendIn("at", 1, 1)>>}
+MenuTBurst == [m \in {"a", "b", "c"} |-> IF m = "a" THEN MenuTBurstA ELSE IF m = "c" THEN MenuTransC ELSE {<<>>}]
+StartTBurst == [m \in {"a", "b", "c"} |-> IF m = "a" THEN {<<Send("at", 2), Send("at", 1), Send("at", 1), Sched(1)>>} ELSE IF m = "c" THEN {<<>>, <<Sched(2)>>} ELSE {<<>>}]
 (* C13: panics *)
 MenuPanicA == {<<>>, <<Send("ao", 1)>>, <<Send("ao", 1), Sched(1)>>, <<PanicC>>, <<Send("ao", 1), PanicC>>}
 MenuPanicB == {<<>>, <<Send("bo", 1)>>, <<PanicC>>, <<Send("bo", 1), Sched(1), PanicC>>, <<Sched(1)>>,
